@@ -250,7 +250,7 @@ class SyncRig(_Base):
             W2.step(self.sock)
 
     def _wire(self):
-        return [d for (_, d, _) in self.ms.wire]
+        return [d for (_, d, _) in self.ms.wire][getattr(self, "_w0", 0):]
 
     def _deliver(self, framed):
         self.ms.inbox.append((framed, SIM_ADDR))
@@ -277,6 +277,27 @@ class SyncRig(_Base):
 
     def ok(self):
         return self.done() and self.struct.had_at_least_one_block
+
+    def restart(self, start, length):
+        """a NEW transfer on the same structure and socket, after the previous one has FAILED (the client's copy is
+        untouched, so the log of the new transfer starts from the same old block)"""
+        from geckolib.driver import GeckoStatusBlockProtocolHandler
+        from geckolib.config import GeckoConfig
+        if not self.done() or self.ok():
+            raise env.MachineryError("restart: the previous transfer has not failed")
+        self.start, self.length = start, length
+        self.bag, self.log, self._seen = [], [], 0
+        self._w0 = len(self.ms.wire)
+        saved = GeckoConfig.PROTOCOL_RETRY_COUNT
+        GeckoConfig.PROTOCOL_RETRY_COUNT = self.R
+        try:
+            self.request = GeckoStatusBlockProtocolHandler.request(
+                self.sock.get_and_increment_sequence_counter(False), start, length, parms=self.parms)
+        finally:
+            GeckoConfig.PROTOCOL_RETRY_COUNT = saved
+        self.struct.retry_request(self.sock, self.request, self.parms)
+        self.iterate(2)
+        self.collect()
 
     def block(self):
         return self.struct.status_block
